@@ -867,14 +867,26 @@ func runC13(c *Ctx) {
 			all = append(all, ops...)
 			all = append(all, AuthOp{K: "reset"})
 		}
-		whole := AuthCase{MaxFacts: 1000, MaxIter: 100, Ctor: "for", Tokens: [][]Block{tok}, Ops: all}
+		// a quarter of the histories run under limits given at creation that are not the
+		// defaults (a round may then end in a limit error, on the reused authorizer and on the
+		// new one alike)
+		hmf, hmi := 1000, 100
+		switch r.Intn(8) {
+		case 0:
+			hmf = 2 + r.Intn(8)
+			c.Count("history-under-fact-limit")
+		case 1:
+			hmi = 1 + r.Intn(2)
+			c.Count("history-under-iteration-limit")
+		}
+		whole := AuthCase{MaxFacts: hmf, MaxIter: hmi, Ctor: "for", Tokens: [][]Block{tok}, Ops: all}
 		res, sx := emitAuth(c, "hist", whole)
 		if res == "environment-timeout" {
 			continue
 		}
 		var fresh []string
 		for _, ops := range perRound {
-			rc := AuthCase{MaxFacts: 1000, MaxIter: 100, Ctor: "for", Tokens: [][]Block{tok}, Ops: ops}
+			rc := AuthCase{MaxFacts: hmf, MaxIter: hmi, Ctor: "for", Tokens: [][]Block{tok}, Ops: ops}
 			rr, _ := emitAuth(c, "round", rc)
 			if rr != "" {
 				fresh = append(fresh, rr)
